@@ -5,6 +5,7 @@ import (
 	"fmt"
 	"os"
 	"path/filepath"
+	"slices"
 	"strings"
 	"testing"
 
@@ -49,7 +50,7 @@ type failer interface {
 // class is then excluded for the rest of the process, each further hit would cost a minute.
 var ssStopHit bool
 
-func checkPlan(t failer, p *plan, dir string) {
+func checkPlan(t failer, p *plan, dir string) (labels []string) {
 	if ssStopHit && p.NATTimeoutMs >= 60000 {
 		if up, _ := p.stopUnderTraffic(); up {
 			recLife.Excluded(1)
@@ -93,6 +94,7 @@ func checkPlan(t failer, p *plan, dir string) {
 		}
 		t.Fatalf("%s\nplan=%s", out.violation, pj)
 	}
+	labels = out.labels
 	recLife.Case(p.class(), out.nontrivial, out.labels...)
 	if out.nontrivial {
 		recLife.Sample(out.sample)
@@ -106,6 +108,7 @@ func checkPlan(t failer, p *plan, dir string) {
 		pj, _ := json.Marshal(p)
 		fmt.Fprintf(os.Stderr, "C12 slow stop %v plan=%s\n", out.stopDur, pj)
 	}
+	return labels
 }
 
 var maxStopMs int64 = -1
@@ -264,6 +267,13 @@ func TestKeepAliveAndExpiry(t *testing.T) {
 			Phases: []phase{{Kind: phEstablish}, {Kind: phRefused, N: 40}}},
 		{Seed: 18, ServerProto: "socks5", BatchMode: "no", ClientProto: "direct", NATTimeoutMs: 400, NSessions: 2,
 			Phases: []phase{{Kind: phRefused, N: 8}, {Kind: phPauseEvict}}},
+		// (g) socks5 client (with and without username/password): initialisation fails after the control connection is up
+		{Seed: 19, ServerProto: "socks5", BatchMode: "no", ClientProto: "socks5", ClientAuth: true, NATTimeoutMs: 400, NSessions: 1,
+			Phases: []phase{{Kind: phLateFail, N: 2, Variant: "bound-domain-unresolvable"}, {Kind: phLateFail, N: 1, Variant: "bound-domain-wrong-family"},
+				{Kind: phLateFail, N: 2, Variant: "reply-failure"}, {Kind: phLateFail, N: 1, Variant: "close-after-reply"}, {Kind: phEstablish}, {Kind: phPauseEvict}}},
+		{Seed: 20, ServerProto: "none", BatchMode: "sendmmsg", ClientProto: "socks5", EndpointByName: true, NATTimeoutMs: 400, NSessions: 1,
+			Phases: []phase{{Kind: phEstablish}, {Kind: phLateFail, N: 2, Variant: "bound-domain-unresolvable"}, {Kind: phLateFail, N: 1, Variant: "bound-domain-wrong-family"},
+				{Kind: phLateFail, N: 2, Variant: "reply-failure"}, {Kind: phLateFail, N: 1, Variant: "close-after-reply"}, {Kind: phResend}}},
 		// (e) steady traffic (gaps natTimeout/30, 2.5 x natTimeout) keeps the session; silence ends it
 		{Seed: 14, ServerProto: "socks5", BatchMode: "no", ClientProto: "direct", NATTimeoutMs: 500, NSessions: 3,
 			Phases: []phase{{Kind: phSteady}, {Kind: phPauseEvict}, {Kind: phResend}}},
@@ -275,5 +285,43 @@ func TestKeepAliveAndExpiry(t *testing.T) {
 		_ = before
 		checkPlan(t, p, dir)
 		recFixed.Case(p.class(), true, "batch:"+p.BatchMode)
+	}
+}
+
+var recGaps = ev.New("C12", "keepalive-gaps",
+	"plain, one plan per shard (shard 0: sendmmsg, shard 1: generic): natTimeout 1.2 s, five sessions sending single datagrams with gaps of 0.2/0.45/0.55/0.7/0.9 x natTimeout "+
+		"(four gaps each, every uplink batch is one packet), then a reply from the destination 0.5 x natTimeout after the last datagram, then silence >= natTimeout (eviction) and a restart. "+
+		"A gap class is judged only when the harness can bound the relay-side gap (echo(k+1) - send(k)) below natTimeout; if one of the classes 0.55/0.7/0.9 stayed unjudged the plan is run once more. "+
+		"Non-trivial: every plan").Require("judged-0.55T", "judged-0.7T", "judged-0.9T")
+
+// TestKeepAliveGaps: keep-alive traffic whose gaps lie between half the NAT timeout and the NAT timeout.
+func TestKeepAliveGaps(t *testing.T) {
+	modes := []string{"sendmmsg", "no"}
+	if v := os.Getenv("VERIF_SHARDS"); v == "2" {
+		shard := 0
+		fmt.Sscan(os.Getenv("VERIF_SHARD"), &shard)
+		modes = modes[shard%2 : shard%2+1]
+	}
+	dir := workDir(t)
+	for i, mode := range modes {
+		p := &plan{Seed: uint64(30 + i), ServerProto: []string{"socks5", "none"}[i%2], BatchMode: mode, ClientProto: "direct", NATTimeoutMs: 1200, NSessions: 5,
+			Phases: []phase{{Kind: phGapKeep}, {Kind: phPauseEvict}, {Kind: phResend}}}
+		for attempt := 0; attempt < 2; attempt++ {
+			labels := checkPlan(t, p, dir)
+			if t.Failed() {
+				return
+			}
+			judged := 0
+			for _, f := range []string{"0.55T", "0.7T", "0.9T"} {
+				if slices.Contains(labels, "keepalive-gap:"+f+":"+mode) {
+					judged++
+				}
+			}
+			if judged == 3 {
+				recGaps.Case(p.class(), true, "judged-0.55T", "judged-0.7T", "judged-0.9T", "batch:"+mode)
+				break
+			}
+			recGaps.Label("rerun-because-unjudged", 1)
+		}
 	}
 }
